@@ -6,7 +6,8 @@ real scheduler running real `sh` children that print a position-dependent patter
 Monitor (the property itself, independent of the model): the run ends; the file named by State.Log holds every stdout byte
 of the last attempt in order and - unless `stderr:` is set - every stderr byte; the `stdout:` / `stderr:` files hold every
 byte of the last attempt's stream.
-Known findings (narrow classes): F12a retry-multi-unflushed, F12b retry-stale-teardown, F12c output-exceeds-pipe.
+The model and the check describe the REPAIRED code (8880f0d, f5eca82): F12a / F12b / F12c are fixed, no known finding is
+left for this property; a case that would have been one of them is an ordinary violation now.
 """
 import json
 import os
@@ -16,8 +17,6 @@ from vlib import clist, cbool
 from props import paramslog_lib as pl
 
 BUF = 4096
-HALF = 32768
-PIPE = 65536
 
 
 # ---- the case --------------------------------------------------------------------------------------------------
@@ -52,25 +51,37 @@ def has_full(rs, a, n):
 
 
 # ---- monitor ---------------------------------------------------------------------------------------------------
+EXEC_STR = 131066     # longest value execve takes in OUTV=value (MAX_ARG_STRLEN 131072 incl. name, = and NUL)
+
+
+def exec_limit(c):
+    """After an attempt captured more than execve accepts in one environment string (Execute does os.Setenv) the next
+    attempt of the step cannot be started (E2BIG); that attempt captures nothing, so the one after it starts again.
+    Such cases are judged by simulating this alternation; they are outside the Log model."""
+    return c["output"] and log_flow(c) > EXEC_STR and n_attempts(c) >= 2
+
+
+def simulate_exec_limit(c):
+    """-> (children run, last attempt ran?, index of the last child)"""
+    rc, child, prev_ran, ran = 0, 0, False, False
+    while True:
+        if prev_ran:
+            ran, failed = False, True            # E2BIG
+        else:
+            ran, failed = True, child < c["fails"]
+            child += 1
+        prev_ran = ran
+        if failed and rc < c["retries"]:
+            rc += 1
+            continue
+        return child, ran, child - 1
+
+
 def classify(c, where):
     """Class of a property failure of case c (decidable from the configuration and the symptom)."""
-    na = n_attempts(c)
     if where == "hang":
-        if c["output"] and log_flow(c) > HALF:
-            return "output-exceeds-pipe"
         return "hang"
-    if c["stream"] == "slowdone" and na >= 2:
-        return "retry-stale-teardown"
-    if na >= 2 and multi(c) and where in ("log", "stdout-file"):
-        return "retry-multi-unflushed"
     return "loss:" + where
-
-
-def script_lost(c):
-    """An attempt of a `script:` step did not get to run its child: teardown removes Node.scriptFile, which after a
-    retry is the NEXT attempt's script when the stale worker is late (F12b)."""
-    return (c["script"] and n_attempts(c) >= 2 and not c.get("hang") and not c.get("err")
-            and 0 < (c.get("attempts") or 0) < n_attempts(c))
 
 
 def monitor(c):
@@ -79,15 +90,25 @@ def monitor(c):
         return ("the run could not be made: %s" % c["err"], {"class": "harness"})
     base = {"stdout": c["stdout"], "stderr": c["stderr"], "output": c["output"], "retries>0": n_attempts(c) >= 2}
     if c.get("hang"):
-        return ("the step never finishes (watchdog 5 s): output=%s, %d bytes towards the capture pipe" % (c["output"], log_flow(c)),
+        return ("the step never finishes (watchdog): output=%s, %d bytes towards the log" % (c["output"], log_flow(c)),
                 dict(base, **{"class": classify(c, "hang")}))
     so, se = sizes(c)
     last = n_attempts(c) - 1
+    if exec_limit(c):
+        nchild, ran, lastc = simulate_exec_limit(c)
+        lo, le = runs(c["log"], "out"), runs(c["log"], "err")
+        ok = c.get("attempts") == nchild
+        if ran:
+            ok = ok and has_full(lo, lastc, so) and (c["stderr"] or has_full(le, lastc, se))
+        else:
+            ok = ok and c["log"].get("len", 0) == 0
+        if not ok:
+            return ("with captures beyond the execve limit (every other attempt cannot start): child ran %s times (expected %d), State.Log "
+                    "runs %r / %r, last attempt %s" % (c.get("attempts"), nchild, lo, le, "ran child %d" % lastc if ran else "could not start"),
+                    dict(base, **{"class": "exec-limit"}))
+        return None
     if c.get("attempts") != last + 1:
-        cl = "attempts"
-        if script_lost(c):
-            cl = "retry-stale-teardown"   # the stale teardown removed the script file of the attempt that followed
-        return ("the child ran %s times, expected %d attempts" % (c.get("attempts"), last + 1), dict(base, **{"class": cl}))
+        return ("the child ran %s times, expected %d attempts" % (c.get("attempts"), last + 1), dict(base, **{"class": "attempts"}))
     lo, le = runs(c["log"], "out"), runs(c["log"], "err")
     if not has_full(lo, last, so) or (not c["stderr"] and not has_full(le, last, se)):
         return ("State.Log lacks bytes of the last attempt: stdout runs %r of %d, stderr runs %r of %d" % (lo, so, le, 0 if c["stderr"] else se),
@@ -106,9 +127,7 @@ HEADER = ("From Coq Require Import List Bool Arith NArith.\nImport ListNotations
           "From BD.Log Require Import Model Check.\n")
 
 
-def model_blk(c, aligned=False):
-    if aligned:
-        return 32768
+def model_blk(c):
     b = c["blk"] if c["blk"] > 0 else max(c["size"], 1)
     if c["size"] > 131072:
         # how a large stream is chunked is not observable (and, by C12_complete_partial, irrelevant where nothing is
@@ -117,12 +136,12 @@ def model_blk(c, aligned=False):
     return max(1, min(b, 32768))
 
 
-def coq_case(c, lates, aligned=False):
+def coq_case(c):
     so, se = sizes(c)
     na = n_attempts(c)
-    return "(%s, %s, %s, %s, N.to_nat %d%%N, %s, %s)" % (
-        cbool(c["stdout"]), cbool(c["stderr"]), cbool(c["output"]), cbool(c["script"]), model_blk(c, aligned),
-        clist(["(%d, %d)%%N" % (so, se)] * na), clist(["N.to_nat %d%%N" % d for d in lates]))
+    return "(%s, %s, %s, %s, N.to_nat %d%%N, %s)" % (
+        cbool(c["stdout"]), cbool(c["stderr"]), cbool(c["output"]), cbool(c["script"]), model_blk(c),
+        clist(["(%d, %d)%%N" % (so, se)] * na))
 
 
 def parse_rows(out):
@@ -141,13 +160,10 @@ def parse_rows(out):
 
 
 def decode_rows(rows, n):
-    """rows (case, kind, a, b) -> per case {kind: [(attempt, stream, pos, len)] , 'blocked': bool}"""
-    out = [{"blocked": False, 0: [], 1: [], 2: [], 4: []} for _ in range(n)]
+    """rows (case, kind, a, b) -> per case {kind: [(attempt, stream, pos, len)]}"""
+    out = [{0: [], 1: [], 2: [], 4: []} for _ in range(n)]
     for k, kind, a, b in rows:
-        if kind == 3:
-            out[k]["blocked"] = (a == 1)
-        else:
-            out[k][kind].append((a >> 41, (a >> 40) & 1, a & ((1 << 40) - 1), b))
+        out[k][kind].append((a >> 41, (a >> 40) & 1, a & ((1 << 40) - 1), b))
     return out
 
 
@@ -165,15 +181,15 @@ def project(segs, stream):
 
 
 def eval_model(ctx, variants):
-    """variants: list of (case, lates, aligned) -> list of decoded predictions (or None)."""
+    """variants: list of cases -> list of decoded predictions (or None)."""
     # heavy cases (megabyte streams) are spread over the shards
-    order = sorted(enumerate(variants), key=lambda t: -(t[1][0]["size"] * n_attempts(t[1][0])))
+    order = sorted(enumerate(variants), key=lambda t: -(t[1]["size"] * n_attempts(t[1])))
     nsh = max(1, min(14, (len(order) + 7) // 8))
     shards = [order[i::nsh] for i in range(nsh)]
 
     def ev(t):
         idx, sh = t
-        terms = [coq_case(c, lates, al) for _, (c, lates, al) in sh]
+        terms = [coq_case(c) for _, c in sh]
         rc, out, dt = vlib.coq_eval(ctx.scratch, "c12_cases_%d_%d" % (id(variants) % 9973, idx),
                                     HEADER + "Definition cases : list lcase := [\n%s\n].\nDefinition M := Eval vm_compute in eval_cases cases.\nPrint M.\n"
                                     % ";\n".join(terms), timeout=900)
@@ -195,148 +211,56 @@ def eval_model(ctx, variants):
     return res
 
 
-def cmp_file(c, pred_segs, obs, sink, tolerant):
+def cmp_file(c, pred_segs, obs, sink):
     """Compare the model's prediction for one file with the observation; returns None or a text."""
-    so, se = sizes(c)
-    for stream, which, full in ((0, "out", so), (1, "err", se)):
+    for stream, which in ((0, "out"), (1, "err")):
         mr = project(pred_segs, stream)
         rr = runs(obs, which)
-        if mr == rr:
-            continue
-        if not tolerant:
+        if mr != rr:
             return "%s, %s bytes: model %r, implementation %r" % (sink, which, mr, rr)
-        # unflushed attempts (k >= 1, MultiWriter wiring): how much of the tail is lost depends on how the copying
-        # goroutine happened to chunk the stream; the model bounds the loss by one buffer (4096 bytes)
-        md = {a: (s, n) for a, s, n in mr}
-        rd = {a: (s, n) for a, s, n in rr}
-        if len(md) != len(mr) or len(rd) != len(rr):
-            return "%s, %s bytes: repeated attempt in %r / %r" % (sink, which, mr, rr)
-        for a in set(md) | set(rd):
-            ms, mn = md.get(a, (0, 0))
-            rs_, rn = rd.get(a, (0, 0))
-            if (ms, mn) == (rs_, rn):
-                continue
-            if a == 0 or a < 0 or rs_ != 0 or ms != 0:
-                return "%s, %s bytes, attempt %d: model %r, implementation %r" % (sink, which, a, md.get(a), rd.get(a))
-            if log_flow(c) < BUF:
-                return "%s, %s bytes, attempt %d (flow < 4096, nothing can reach the file): model %r, implementation %r" % (sink, which, a, md.get(a), rd.get(a))
-            if not (max(0, full - BUF) <= rn <= full):
-                return "%s, %s bytes, attempt %d: implementation kept %d of %d bytes, the model bounds the loss by 4096" % (sink, which, a, rn, full)
     return None
 
 
-def compare(c, pred, tolerant):
+def compare(c, pred):
     if pred is None:
         return "no prediction"
-    if pred["blocked"] != bool(c.get("hang")):
-        return "model %s, implementation %s" % ("blocks on the capture pipe" if pred["blocked"] else "finishes", "hangs" if c.get("hang") else "finishes")
     if c.get("hang"):
-        return None
-    r = cmp_file(c, pred[0], c["log"], "State.Log", tolerant)
+        return "the model always finishes, the implementation hangs"
+    r = cmp_file(c, pred[0], c["log"], "State.Log")
     if r:
         return r
     if c["stdout"]:
-        r = cmp_file(c, pred[1], c["out_file"], "stdout: file", tolerant)
+        r = cmp_file(c, pred[1], c["out_file"], "stdout: file")
         if r:
             return r
     elif c["out_file"].get("exists"):
         return "a stdout: file exists though none is configured"
     if c["stderr"]:
-        r = cmp_file(c, pred[2], c["err_file"], "stderr: file", False)
+        r = cmp_file(c, pred[2], c["err_file"], "stderr: file")
         if r:
             return r
     if c["output"] and c.get("out_var") is not None:
-        r = cmp_file(c, pred[4], c["out_var"], "captured output", False)
+        r = cmp_file(c, pred[4], c["out_var"], "captured output")
         if r:
             return r
     return None
 
 
-def late_candidates(c):
-    """Where the stale teardown of attempt 0 may land among the actions of attempt 1 (retries = 1)."""
-    so, se = sizes(c)
-    blk = model_blk(c)
-    nch = (so + blk - 1) // blk + (se + blk - 1) // blk
-    return [0, 1, 2] + sorted(set([2 + max(1, nch // 2), 2 + nch])) + [3 + nch, 10 ** 6]
-
-
 def model_check(ctx, cases):
     """Returns list of (case, what)."""
-    variants, owner = [], []
-    for i, c in enumerate(cases):
-        if c.get("err"):
-            continue
-        if script_lost(c):
-            # the child indices no longer line up with the attempts; the script file is not part of the model
-            c["_stale"] = True
-            ctx.cov["script_removed_by_stale_teardown"] = ctx.cov.get("script_removed_by_stale_teardown", 0) + 1
-            continue
-        na = n_attempts(c)
-        variants.append((c, [0] * (na - 1), False))
-        owner.append(i)
-        if c["output"] and HALF < log_flow(c) <= PIPE:
-            variants.append((c, [0] * (na - 1), True))       # page-aligned chunks: the other possible verdict
-            owner.append(i)
-    preds = eval_model(ctx, variants)
-    by_case = {}
-    for i, p in zip(owner, preds):
-        by_case.setdefault(i, []).append(p)
-    bad, second = [], []
-    for i, ps in by_case.items():
-        c = cases[i]
-        tol = n_attempts(c) >= 2 and multi(c)
-        if c.get("hang") and c["output"] and HALF < log_flow(c) <= PIPE:
-            # between half a pipe and a full pipe the copy blocks or not depending on how the stream happens to be
-            # chunked (pipe slots are pages): both verdicts are executions of the model
-            ctx.cov["pipe_window_hangs"] = ctx.cov.get("pipe_window_hangs", 0) + 1
-            continue
-        rs = [compare(c, p, tol) for p in ps]
-        if any(r is None for r in rs):
-            continue
-        if n_attempts(c) >= 2 and not c.get("hang"):
-            second.append((i, rs[0]))     # maybe a stale teardown (F12b): look for an interleaving that explains it
-        else:
-            bad.append((c, rs[0]))
-    ctx.cov["stale_teardown_explained"] = 0
-    if second:
-        v2, o2 = [], []
-        for i, _ in second:
-            c = cases[i]
-            na = n_attempts(c)
-            for d in late_candidates(c):
-                v2.append((c, [d] + [0] * (na - 2), False))
-                o2.append(i)
-        p2 = eval_model(ctx, v2)
-        expl = {}
-        for i, p in zip(o2, p2):
-            if compare(cases[i], p, True) is None:
-                expl[i] = True
-        for i, r in second:
-            c = cases[i]
-            if expl.get(i):
-                ctx.cov["stale_teardown_explained"] += 1
-                c["_stale"] = True
-            elif c["stream"] == "slowdone" and prefix_only(c):
-                # the teardown landed inside the copy loop: how far the copy got is a matter of timing
-                ctx.cov["stale_teardown_loose"] = ctx.cov.get("stale_teardown_loose", 0) + 1
-                c["_stale"] = True
-            else:
-                bad.append((c, r))
+    todo = [c for c in cases if not c.get("err") and not exec_limit(c)]
+    ctx.cov["not_compared_exec_limit"] = sum(1 for c in cases if exec_limit(c))
+    preds = eval_model(ctx, todo)
+    bad = []
+    for c, p in zip(todo, preds):
+        r = compare(c, p)
+        if r is not None:
+            bad.append((c, r))
     return bad
 
 
-def prefix_only(c):
-    last = n_attempts(c) - 1
-    for o in (c["log"], c["out_file"], c["err_file"]):
-        for which in ("out", "err"):
-            for a, s, n in runs(o, which):
-                if a < 0 or s != 0:
-                    return False
-    return all(a == last for a, s, n in runs(c["log"], "out") + runs(c["log"], "err"))
-
-
 # ---- shrinking -------------------------------------------------------------------------------------------------
-IN_KEYS = ("stream", "stdout", "stderr", "output", "script", "retries", "fails", "emit", "size", "blk", "slowdone")
+IN_KEYS = ("stream", "stdout", "stderr", "output", "script", "retries", "fails", "emit", "size", "blk", "slowdone", "done")
 
 
 def inputs(c):
@@ -360,11 +284,15 @@ def candidates(c):
             out.append(dict(b, size=s))
     if b["blk"] != 0:
         out.append(dict(b, blk=0))
+    if b.get("done"):
+        out.append(dict(b, done=0))
+    if b.get("slowdone"):
+        out.append(dict(b, slowdone=0))
     return out
 
 
 def slim(c):
-    d = {k: v for k, v in c.items() if k not in ("other_logs", "ms", "_stale")}
+    d = {k: v for k, v in c.items() if k not in ("other_logs", "ms")}
     for f in ("log", "out_file", "err_file", "out_var"):
         if isinstance(d.get(f), dict):
             d[f] = {k: v for k, v in d[f].items() if k in ("exists", "len", "n_out", "n_err", "runs_out", "runs_err")}
@@ -412,23 +340,22 @@ def run(ctx, replay_cases=None):
         ctx.cov["driver_s"] = round(dt, 1)
     else:
         cases = replay_cases
-    bad = model_check(ctx, cases)
-    # a spontaneous stale teardown (the race exists without a slow reader too) is the same finding
     for c in cases:
-        if c.get("_stale") and c["stream"] != "slowdone":
-            c["stream"] = "slowdone"
+        c.setdefault("done", 0)
+    bad = model_check(ctx, cases)
     judge(ctx, tool, cases)
     for c, what in bad:
         ctx.fail("correspondence", "model and implementation differ: " + what, slim(c), cls={"class": "correspondence"})
     # evidence
     seen = set()
-    hist = {"wiring": {}, "retries": {}, "emit": {}, "size": {}, "final": {}, "stream": {}}
+    hist = {"wiring": {}, "retries": {}, "emit": {}, "size": {}, "final": {}, "stream": {}, "done_channel": {}}
     for c in cases:
         if c["size"] > 0:
             seen.add(json.dumps(inputs(c), sort_keys=True))
         w = "+".join(k for k in ("stdout", "stderr", "output", "script") if c[k]) or "log-only"
         for k, v in (("wiring", w), ("retries", c["retries"]), ("emit", c["emit"]), ("size", c["size"] if c["stream"] == "matrix" else "random"),
-                     ("final", "hang" if c.get("hang") else c.get("node_status")), ("stream", c["stream"])):
+                     ("final", "hang" if c.get("hang") else c.get("node_status")), ("stream", c["stream"]),
+                     ("done_channel", "slow reader" if c.get("slowdone") else "prompt reader" if c.get("done") else "none")):
             hist[k][str(v)] = hist[k].get(str(v), 0) + 1
     ctx.cov["evaluations"] = len(cases)
     ctx.cov["traces_validated_against_impl"] = len(cases)
@@ -441,14 +368,13 @@ def run(ctx, replay_cases=None):
         ctx.sample(slim(c))
     ctx.cov["trusted_base"] += [
         "re-implemented library / OS semantics: bufio.Writer (4096) Write/Flush/ReadFrom, io.MultiWriter, io.Copy chunking (<= 32 KiB), "
-        "exec.Cmd sharing one pipe for identical Stdout/Stderr, Linux pipe (16 page slots, sub-page merge rule of pipe_write)",
+        "exec.Cmd sharing one pipe for identical Stdout/Stderr, bytes.Buffer",
         "log file names of successive attempts differ (start times in different milliseconds)",
         "after a write error on a closed file the model drops the rest of the stream (what exec.Cmd does next is not modelled)",
     ]
-    ctx.assumptions = ["C12_complete_partial: one attempt (no retry happened) and (output unset or at most 32768 bytes towards the capture pipe)",
-                       "C12_complete_retry_direct_partial: any number of attempts, but neither `stdout:` nor `output:` configured and every stale "
-                       "worker tears down before the next attempt is set up",
-                       "C12_capture_partial: output set, one attempt, at most 32768 bytes"]
+    ctx.assumptions = ["C12_complete: none beyond at least one attempt (every configuration, number of retries, chunking, size)",
+                       "after a capture beyond the execve limit (131067 bytes) later attempts of the same step cannot be started (E2BIG) and "
+                       "print nothing: those cases are judged as such and not compared with the model"]
     if ctx.tier == "thorough":
         ctx.coqchk()
 
@@ -473,7 +399,7 @@ def replay(ctx, path):
         cases.append(fi.get("case", fi))
     if isinstance(body.get("case"), dict):
         cases.append(body["case"])
-    cases = [inputs(c) for c in cases if isinstance(c, dict) and all(k in c for k in IN_KEYS)]
+    cases = [inputs(dict({"done": 0}, **c)) for c in cases if isinstance(c, dict) and all(k in c for k in IN_KEYS if k != "done")]
     tool, out, _ = vlib.go_build("logs", ctx.scratch)
     if tool is None:
         ctx.fail("correspondence", "harness does not build against /repo", {"log": out[-2000:]})
